@@ -12,7 +12,10 @@ the operation (`h=<hex>`, computed outside the model). -/
 namespace Litep2pVerif.Driver.C20
 open Litep2pVerif Litep2pVerif.Bitswap Parse
 
-abbrev State := Option Proto.St
+/-- protocol-level session: the model state and, per inbound substream, the arguments of the message
+whose beginning the remote has written (`inmsg … hold=<n>`; content only — whether a frame is held is
+part of the model state) -/
+abbrev State := Option (Proto.St × List (Nat × List String))
 def init : State := none
 
 /-- `multihash_codetable::Code` with features sha2, blake2b, sha3. -/
@@ -168,7 +171,9 @@ def batchesLine (v codec mh dlen sizes pres : String) : String :=
 section ProtoOps
 open Proto
 
-def limits : Limits := ⟨Consts.MAX_BATCH_SIZE, Consts.MAX_BATCH_BLOCKS, Consts.MAX_MESSAGE_SIZE, Consts.MAX_MESSAGE_SIZE⟩
+def limits : Limits :=
+  ⟨Consts.MAX_BATCH_SIZE, Consts.MAX_BATCH_BLOCKS, Consts.MAX_MESSAGE_SIZE, Consts.MAX_MESSAGE_SIZE,
+   Consts.BITSWAP_WRITE_TIMEOUT_SECS * 1000⟩
 
 def peer? (s : String) : Option Nat := s.toNat?.bind fun p => if 1 ≤ p ∧ p ≤ 9 then some p else none
 
@@ -223,7 +228,7 @@ def listOf {α : Type} (f : String → Option α) (s : String) : Option (List α
   if (s.splitOn ",").length > 64 then none else allSome ((s.splitOn ",").map f)
 
 /-- `[] | ok | fail=<k>[.<off>] | stall=<k>` -/
-def plan? : List String → Option (Option Nat × Nat)
+def fate? : List String → Option (Option Nat × Nat)
   | [] => some (none, 0)
   | ["ok"] => some (none, 0)
   | [p] =>
@@ -239,6 +244,26 @@ def plan? : List String → Option (Option Nat × Nat)
     | ["stall", k] => k.toNat?.map fun k => (some k, 0)
     | _ => none
   | _ => none
+
+/-- `slow=<ms>[,<ms>…]`: at most 16 delays of at most 600 000 ms -/
+def slow? (s : String) : Option (List Nat) :=
+  match s.splitOn "=" with
+  | ["slow", v] =>
+    match allSome ((v.splitOn ",").map String.toNat?) with
+    | some ds => if ds.isEmpty ∨ ds.length > 16 ∨ ds.any (· > 600000) then none else some ds
+    | none => none
+  | _ => none
+
+/-- `[ok | fail=<k>[.<off>] | stall=<k>] [slow=…]` -/
+def plan? (ts : List String) : Option (Option Nat × Nat × List Nat) :=
+  match ts.getLast? with
+  | some last =>
+    if last.startsWith "slow=" then
+      match slow? last, fate? ts.dropLast with
+      | some ds, some (b, off) => some (b, off, ds)
+      | _, _ => none
+    else (fate? ts).map fun (b, off) => (b, off, [])
+  | none => some (none, 0, [])
 
 def showKind (k : Kind) : String := s!"{k.v}/{k.codec}/{k.mh}/{k.dlen}"
 
@@ -293,7 +318,11 @@ def showWrites (atts : List Attempt) : String :=
   | a :: _ =>
     let words := atts.flatMap fun x =>
       x.written.map showWFrame ++ (if x.partialBytes > 0 then [s!"~{x.partialBytes}"] else [])
-    if words.isEmpty then "-" else s!"s{a.sub}=" ++ joinWith "|" words
+    -- virtual time at which the last complete frame of the operation was accepted
+    let tm := (atts.map (·.elapsed)).sum
+    let complete := atts.any fun x => !x.written.isEmpty
+    if words.isEmpty then "-"
+    else s!"s{a.sub}" ++ (if tm > 0 ∧ complete then s!"@{tm}" else "") ++ "=" ++ joinWith "|" words
 
 def showOut (res : Res) (o : Out) (events : String) (st : St) : String :=
   (match res with
@@ -340,27 +369,66 @@ def showInEvents (p : Nat) (m : InMsg) : String :=
         | .presence cid ty => "P" ++ bytesHex cid.toBytes ++ "/" ++ toString ty)]
   dashJoin "," (req ++ resp)
 
-def protoOp (st : St) (op : Op) (events : String) : State × String :=
-  let r := Proto.step limits st op
-  (some r.1, showOut r.2.1 r.2.2 events r.1)
+abbrev Held := List (Nat × List String)
 
-def protoStep (st : St) (ts : List String) : State × String :=
-  let bad : State × String := (some st, "bad-op")
+def protoOp (st : St) (held : Held) (op : Op) (events : String) : State × String :=
+  let r := Proto.step limits st op
+  (some (r.1, held), showOut r.2.1 r.2.2 events r.1)
+
+/-- how an inbound frame arrives: `cut=<a>[,<b>…]` (pieces), `gap=<ms>` (time between two pieces),
+`hold=<n>` (only the first bytes now); the other tokens are the message -/
+structure Arrival where
+  hold : Option Nat := none
+  args : List String := []
+
+def natList? (v : String) : Option (List Nat) := allSome ((v.splitOn ",").map String.toNat?)
+
+def arrival? : List String → Arrival → Option Arrival
+  | [], a => some { a with args := a.args.reverse }
+  | t :: rest, a =>
+    if t.startsWith "cut=" then
+      match t.splitOn "=" with
+      | ["cut", v] => match natList? v with
+        | some cs => if cs.isEmpty ∨ cs.length > 16 then none else arrival? rest a
+        | none => none
+      | _ => none
+    else if t.startsWith "gap=" then
+      match t.splitOn "=" with
+      | ["gap", v] => match v.toNat? with
+        | some g => if g > 600000 then none else arrival? rest a
+        | none => none
+      | _ => none
+    else if t.startsWith "hold=" then
+      match t.splitOn "=" with
+      | ["hold", v] => match v.toNat? with
+        | some h => arrival? rest { a with hold := some h }
+        | none => none
+      | _ => none
+    else arrival? rest { a with args := t :: a.args }
+
+def eventsOf (st : St) (k : Nat) (m : InMsg) : String :=
+  match st.inboundOwner k with
+  | some p => showInEvents p m
+  | none => "-"
+
+def protoStep (st : St) (held : Held) (ts : List String) : State × String :=
+  let bad : State × String := (some (st, held), "bad-op")
+  let protoOp := protoOp st held
   match ts with
   | ["conn", p] => match peer? p with
-    | some p => protoOp st (.conn p true) "-"
+    | some p => protoOp (.conn p true) "-"
     | none => bad
   | ["conn", p, "dead"] => match peer? p with
-    | some p => protoOp st (.conn p false) "-"
+    | some p => protoOp (.conn p false) "-"
     | none => bad
   | ["disc", p] => match peer? p with
-    | some p => protoOp st (.disc p) "-"
+    | some p => protoOp (.disc p) "-"
     | none => bad
   | ["conndead", p] => match peer? p with
-    | some p => protoOp st (.conndead p) "-"
+    | some p => protoOp (.conndead p) "-"
     | none => bad
   | ["dialfail", p] => match peer? p with
-    | some p => protoOp st (.dialfail p) "-"
+    | some p => protoOp (.dialfail p) "-"
     | none => bad
   | ["view", p, v] =>
     match peer? p, (match v with
@@ -368,57 +436,79 @@ def protoStep (st : St) (ts : List String) : State × String :=
       | "g" => some View.dialing
       | "d" => some View.disconnected
       | _ => none) with
-    | some p, some v => protoOp st (.view p v) "-"
+    | some p, some v => protoOp (.view p v) "-"
     | _, _ => bad
   | "subopen" :: s :: rest =>
     match idx? 's' s, plan? rest with
-    | some s, some pl => protoOp st (.subopen s pl.1 pl.2) "-"
+    | some s, some pl => protoOp (.subopen s pl.1 pl.2.1 pl.2.2) "-"
     | _, _ => bad
   | ["subfail", s] => match idx? 's' s with
-    | some s => protoOp st (.subfail s) "-"
+    | some s => protoOp (.subfail s) "-"
     | none => bad
   | "plan" :: s :: rest =>
     if rest.isEmpty then bad else
     match idx? 's' s, plan? rest with
-    | some s, some pl => protoOp st (.plan s pl.1 pl.2) "-"
+    | some s, some pl => protoOp (.plan s pl.1 pl.2.1 pl.2.2) "-"
     | _, _ => bad
   | ["resp", p, k, es] =>
     match peer? p, kind? k with
     | some p, some k => match listOf (entry? k) es with
-      | some es => protoOp st (.command p (.response es)) "-"
+      | some es => protoOp (.command p (.response es)) "-"
       | none => bad
     | _, _ => bad
   | ["req", p, k, cs] =>
     match peer? p, kind? k with
     | some p, some k => match listOf (want? k) cs with
-      | some cs => protoOp st (.command p (.request cs)) "-"
+      | some cs => protoOp (.command p (.request cs)) "-"
       | none => bad
     | _, _ => bad
   | ["insub", p] => match peer? p with
-    | some p => protoOp st (.insub p) "-"
+    | some p => protoOp (.insub p) "-"
     | none => bad
   | "inmsg" :: i :: rest =>
-    match idx? 'i' i, inMsg? rest {} with
-    | some k, some m =>
-      match st.inboundOwner k with
-      | some p => protoOp st (.inmsg k true) (showInEvents p m)
-      | none => protoOp st (.inmsg k true) "-"
+    match idx? 'i' i, arrival? rest {} with
+    | some k, some arr =>
+      match inMsg? arr.args {} with
+      | none => bad
+      | some m =>
+        match arr.hold with
+        | none =>
+          let r := Proto.step limits st (.inmsg k true)
+          (some (r.1, held), showOut r.2.1 r.2.2 (if r.2.1 == .ok then eventsOf st k m else "-") r.1)
+        | some _ =>
+          -- a frame of one byte (the empty message) cannot be held
+          if m.wantlist.isNone ∧ m.payload.isEmpty ∧ m.presences.isEmpty then bad else
+          let r := Proto.step limits st (.inhold k)
+          (some (r.1, if r.2.1 == .ok then (k, arr.args) :: held else held), showOut r.2.1 r.2.2 "-" r.1)
     | _, _ => bad
+  | ["inrest", i] =>
+    match idx? 'i' i with
+    | some k =>
+      let m := ((held.find? fun e => e.1 == k).bind fun e => inMsg? e.2 {}).getD {}
+      let r := Proto.step limits st (.inrest k true)
+      (some (r.1, if r.2.1 == .ok then held.filter (fun e => e.1 != k) else held),
+       showOut r.2.1 r.2.2 (if r.2.1 == .ok then eventsOf st k m else "-") r.1)
+    | none => bad
   | ["inbad", i, h] =>
     match idx? 'i' i, hexOpt? h with
-    | some k, some b => if b.isEmpty then bad else protoOp st (.inmsg k false) "-"
+    | some k, some b => if b.isEmpty then bad else protoOp (.inmsg k false) "-"
     | _, _ => bad
   | [op, i] =>
-    if op = "inbig" ∨ op = "inclose" ∨ op = "inreset" then
+    if op = "inbig" then
+      -- an oversized length prefix is written like a frame (not inside a held one); the stream then fails
       match idx? 'i' i with
-      | some k => protoOp st (.inend k) "-"
+      | some k => protoOp (.inmsg k false) "-"
+      | none => bad
+    else if op = "inclose" ∨ op = "inreset" then
+      match idx? 'i' i with
+      | some k => protoOp (.inend k) "-"
       | none => bad
     else bad
   | _ => bad
 
 def protoWords : List String :=
   ["conn", "disc", "conndead", "dialfail", "view", "subopen", "subfail", "plan", "resp", "req", "insub",
-   "inmsg", "inbad", "inbig", "inclose", "inreset"]
+   "inmsg", "inbad", "inbig", "inclose", "inreset", "inrest"]
 
 end ProtoOps
 
@@ -427,7 +517,7 @@ def step (st : State) (line : String) : State × String :=
   let h := (arg? "h" ts).bind hexOpt? |>.getD []
   let ts := ts.filter fun t => !t.startsWith "h="
   match ts with
-  | ["pnew"] => (some {}, "ok")
+  | ["pnew"] => (some ({}, []), "ok")
   | ["prefix_dec", hx] =>
     match hexOpt? hx with
     | none => (st, "bad-op")
@@ -460,7 +550,7 @@ def step (st : State) (line : String) : State × String :=
   | w :: _ =>
     if protoWords.contains w then
       match st with
-      | some pst => protoStep pst ts
+      | some pst => protoStep pst.1 pst.2 ts
       | none => (st, "bad-op")
     else (st, "bad-op")
   | _ => (st, "bad-op")
